@@ -65,6 +65,10 @@ type zzC12Env struct {
 	// expiries, by whether the record the database iterates last (greatest
 	// token) is the one expiring last or first.
 	restartsLastLater, restartsLastEarlier int
+
+	// blockedByForm counts the rejected (429) attempts by the textual form of
+	// the peer address.
+	blockedByForm map[string]int
 }
 
 // zzC12TokenSrc stands in for crypto/rand.Reader while the harness runs: the
@@ -295,13 +299,44 @@ type zzC12RL struct {
 	auth  *Auth
 }
 
+// zzC12RandAddr returns the address of client i in one of the textual forms a
+// remote address takes in http.Request.RemoteAddr: plain IPv4, plain IPv6,
+// link-local IPv6 with a zone (what a LAN client produces), IPv4-mapped IPv6.
+// A client keeps its form (its exact text) for a whole history: "from one
+// address".  Clients with different i differ in every canonicalisation.
 func zzC12RandAddr(rng *rand.Rand, i int) (a netip.Addr) {
-	if rng.Intn(3) == 0 {
+	switch rng.Intn(4) {
+	case 0:
 		return netip.MustParseAddr(fmt.Sprintf("2001:db8:%x::%x", i+1, rng.Intn(0xfffe)+1))
-	}
+	case 1:
+		zone := []string{"eth0", "wlan0", "br-lan", "2"}[rng.Intn(4)]
 
-	return netip.MustParseAddr(fmt.Sprintf("192.0.%d.%d", i+2, rng.Intn(250)+1))
+		return netip.MustParseAddr(fmt.Sprintf("fe80::%x:%x%%%s", i+1, rng.Intn(0xfffe)+1, zone))
+	case 2:
+		return netip.MustParseAddr(fmt.Sprintf("::ffff:10.%d.%d.%d", i+2, rng.Intn(250), rng.Intn(250)+1))
+	default:
+		return netip.MustParseAddr(fmt.Sprintf("192.0.%d.%d", i+2, rng.Intn(250)+1))
+	}
 }
+
+// zzC12Form names the textual form of a.
+func zzC12Form(a netip.Addr) (form string) {
+	switch {
+	case a.Is4():
+		return "v4"
+	case a.Is4In6():
+		return "v4mapped"
+	case a.Zone() != "":
+		return "v6zone"
+	default:
+		return "v6"
+	}
+}
+
+// zzC12Canon identifies the textual forms of one address with each other; it
+// is used only to attribute a stored record to a modelled client, whatever
+// spelling the code keys its table by.
+func zzC12Canon(a netip.Addr) (c netip.Addr) { return a.Unmap().WithZone("") }
 
 func (s *zzC12RL) reset(seed int64) {
 	s.close()
@@ -347,6 +382,13 @@ func (s *zzC12RL) do(act string, seed int64) (out, detail string) {
 		// attempt <peer> <claim> <ok|bad>
 		rng := rand.New(rand.NewSource(seed))
 		out, _, detail = s.env.login(rng, s.addrs[f[1]], f[3] == "ok", zzC12Claim(rng, f[2], s.other(f[1])), -1)
+		if out == "blocked" {
+			if s.env.blockedByForm == nil {
+				s.env.blockedByForm = map[string]int{}
+			}
+
+			s.env.blockedByForm[zzC12Form(s.addrs[f[1]])]++
+		}
 
 		return out, detail
 	case "tick":
@@ -376,7 +418,7 @@ func zzC12RLRecs(rl *authRateLimiter, addrs map[string]netip.Addr, n int) (recs 
 		found := false
 		ip, err := netip.ParseAddr(k)
 		for nm, a := range addrs {
-			if err == nil && ip == a {
+			if _, dup := recs[nm]; err == nil && !dup && zzC12Canon(ip) == zzC12Canon(a) {
 				c := int(v.num)
 				if c > n {
 					c = n
@@ -1192,7 +1234,7 @@ func TestZZVerifC12Walk(t *testing.T) {
 	})
 
 	w.put(map[string]any{"kind": "done", "graphs": gi, "restarts_last_later": env.restartsLastLater,
-		"restarts_last_earlier": env.restartsLastEarlier})
+		"restarts_last_earlier": env.restartsLastEarlier, "blocked_by_form": env.blockedByForm})
 }
 
 // TestZZVerifC12Replay re-executes one stored disagreement (history + step).
